@@ -150,7 +150,9 @@ def updateCrlEntry (s : State) (loc : Loc) (e : Entry) (newCands : Option (List 
 /-- `getOrAddEntry` / `addNewEmptyEntry`: a new entry opens the persisted directory if there is one. -/
 def newEntry (s : State) (loc : Loc) (cands : List Signer) : Entry :=
   let st : Store := if s.cfg.disk then (lookup s.disk loc).getD {} else {}
-  { store := st, loaded := st.doc.isSome, chains := cands }
+  -- under 'verify' a list found on disk without a stored signer certificate was never verified: not loaded (regenerated fact)
+  let usable := !(persistedNeedsSignerUnderVerify && s.cfg.sigMode == .verify) || st.signer.isSome
+  { store := st, loaded := st.doc.isSome && usable, chains := cands }
 
 /-- `loadActively` (entry write lock held): refused on a closed entry, else store the locations and load. -/
 def loadActively (s : State) (loc : Loc) (e : Entry) (cands : List Signer) : State × Outcome :=
@@ -253,6 +255,9 @@ def provisionOne (s : State) (loc : Loc) (trusted : List Signer) : State × Outc
 
 /-- Process restart: the repository map is gone; persisted directories stay (disk), the sweep removes temporaries. -/
 def restart (s : State) : State := { s with entries := [] }
+
+/-- Process restart with another `signature_validation_mode` in the configuration (same work_dir). -/
+def reconfigure (s : State) (m : SigMode) : State := { s with entries := [], cfg := { s.cfg with sigMode := m } }
 
 /-- `Repository.Close`. -/
 def close (s : State) : State :=
